@@ -2,5 +2,6 @@ import SsqlVerif.Props.C10
 #print axioms C10.each_once_counting
 #print axioms C10.session_bounds
 #print axioms C10.no_early_delivery
-#print axioms C10.gap_splits_partial
-#print axioms C10.gap_splits_fails
+#print axioms C10.gap_splits
+#print axioms C10.open_sessions_apart
+#print axioms C10.joins_exactly_the_touched
